@@ -57,6 +57,9 @@ JudgeClock(i) ==
         ELSE MM(i, "C14/depends-on-opponent-clock", [ev |-> ev, k |-> k])
   \* through the driver: the soft time the search received equals the soft target
   /\ IF "drv" \in DOMAIN ev THEN (IF EQ(ev.drv, ev.soft) THEN TRUE ELSE MM(i, "C14/driver-soft-time", [ev |-> ev])) ELSE TRUE
+  \* ... also when it is the second go of a session: the limits of an earlier go are gone (handleGo starts from an
+  \* empty timeControl for every command)
+  /\ IF "seq" \in DOMAIN ev THEN (IF ev.seq.n = 2 /\ EQ(ev.seq.got, ev.soft) THEN TRUE ELSE MM(i, "C14/limits-of-an-earlier-go-survive", [ev |-> ev])) ELSE TRUE
 
 Judge(i) == IF "dl" \in DOMAIN Trace[i] THEN JudgeDl(i) ELSE JudgeClock(i)
 
